@@ -30,9 +30,12 @@ def run(tier, runner):
     r_w.require(16, 'capacity requests')
     r_rm = round5.range_measure(progs + real)
     r_rm.require(4, 'range members instantiated with a multi-pass iterator')
+    from ..rules import callgraph
+    r_tr = callgraph.throw_reach(progs + real)
+    r_tr.require(60, 'amc functions whose exception specification evaluates to noexcept(true)')
     return {
-        'results': [r_tt, r_w, r_geo, r_cd, r_cf, r_ew, ob['TEMP'], r_rm],
-        'explanation': 'RANGE-MEASURE: range members instantiated with multi-pass iterators (pointers, forward iterators) test the limit once for the whole range before modifying anything.  THROW-TYPE: the only throw expressions of the vector headers are the fixed-capacity check (out_of_range, exactly when the request '
+        'results': [r_tt, r_w, r_geo, r_cd, r_cf, r_ew, ob['TEMP'], r_rm, r_tr],
+        'explanation': 'THROW-REACH: no function whose exception specification evaluates to noexcept(true) - the ADL swap between vectors of different inline capacity included - reaches the capacity check or another throw source: the caller gets the exception, not std::terminate.  RANGE-MEASURE: range members instantiated with multi-pass iterators (pointers, forward iterators) test the limit once for the whole range before modifying anything.  THROW-TYPE: the only throw expressions of the vector headers are the fixed-capacity check (out_of_range, exactly when the request '
                        'exceeds the capacity), SafeNextCapacity and swap_sizetype (overflow_error) and at() (out_of_range exactly when idx >= size()).  '
                        'WIDEN: every size handed to a capacity check / grow is computed in a type wider than size_type or in 64 bits, per size_type '
                        'archetype, from the type of the instantiated expression.  GEO: SafeNextCapacity clamps at size_type max and throws before any effect.  EXACT-WHO: the exact path of SafeNextCapacity has no overflow test (its only caller, reserve, takes a size_type); no element-adding operation - whose request is computed in uintmax_t - reaches a capacity request with exact = true.  CHECK-FIRST: in every operation that tests the limit itself the test precedes the first modification of the container on every path (path-sensitive typestate over the structured body).',
